@@ -94,10 +94,11 @@ func scenarioReceivedBeforeShutdown() (bool, string) {
 
 // a listener shared by two Serve calls: ReadFrom hands one permanent error to whoever reads first, then blocks until closed
 type sharedConn struct {
-	errOnce chan struct{}
-	closed  chan struct{}
-	nclose  int32
-	plain   bool // after Close, ReadFrom fails with an error that is not a net.Error
+	errOnce  chan struct{}
+	closed   chan struct{}
+	nclose   int32
+	plain    bool  // after Close, ReadFrom fails with an error that is not a net.Error
+	closeErr error // what Close reports (the listener is closed all the same)
 }
 
 func (c *sharedConn) ReadFrom(p []byte) (int, net.Addr, error) {
@@ -116,7 +117,7 @@ func (c *sharedConn) Close() error {
 	if atomic.AddInt32(&c.nclose, 1) == 1 {
 		close(c.closed)
 	}
-	return nil
+	return c.closeErr
 }
 func (c *sharedConn) LocalAddr() net.Addr {
 	return &net.UDPAddr{IP: net.IPv4(127, 0, 0, 1), Port: 1812}
@@ -359,3 +360,70 @@ func scenarioQueuedOnMutex() (bool, string) {
 }
 
 func init() { scenarios["c07-queued-on-mutex"] = scenarioQueuedOnMutex }
+
+// A listener whose Close reports an error (it is closed all the same, as a net.UDPConn closed twice is): Shutdown
+// still closes every other registered listener, cancels the request contexts, waits for the handlers and the Serve
+// calls and returns nil - the error of a listener is not the caller's context error.
+func scenarioCloseError() (bool, string) {
+	for round := 0; round < 4; round++ {
+		a := &sharedConn{errOnce: make(chan struct{}), closed: make(chan struct{}), closeErr: fmt.Errorf("close: already closed")}
+		b := &sharedConn{errOnce: make(chan struct{}), closed: make(chan struct{})}
+		if round%2 == 1 {
+			a, b = b, a // map iteration order decides which one Shutdown meets first; try both roles anyway
+		}
+		registered := make(chan struct{}, 4)
+		radius.VerifHook = func(point string) {
+			if point == "serve.registered" {
+				registered <- struct{}{}
+			}
+		}
+		srv := &radius.PacketServer{
+			ErrorLog:     log.New(io.Discard, "", 0),
+			SecretSource: radius.StaticSecretSource([]byte("s3cr3t")),
+			Handler:      radius.HandlerFunc(func(w radius.ResponseWriter, r *radius.Request) {}),
+		}
+		errs := make(chan error, 2)
+		go func() { errs <- srv.Serve(a) }()
+		go func() { errs <- srv.Serve(b) }()
+		for i := 0; i < 2; i++ {
+			select {
+			case <-registered:
+			case <-time.After(3 * time.Second):
+				return false, "a Serve call did not register its listener"
+			}
+		}
+		sd := make(chan error, 1)
+		go func() { sd <- srv.Shutdown(context.Background()) }()
+		select {
+		case err := <-sd:
+			if err != nil {
+				return false, fmt.Sprintf("round %d: two listeners, Close of one reports an error: Shutdown(Background) = %v, want nil (its context has not ended)", round, err)
+			}
+		case <-time.After(3 * time.Second):
+			return false, fmt.Sprintf("round %d: two listeners, Close of one reports an error: Shutdown(Background) did not return (listeners closed: %d and %d times)", round, atomic.LoadInt32(&a.nclose), atomic.LoadInt32(&b.nclose))
+		}
+		for i := 0; i < 2; i++ {
+			select {
+			case err := <-errs:
+				if err != radius.ErrServerShutdown {
+					return false, fmt.Sprintf("round %d: Serve = %v, want ErrServerShutdown", round, err)
+				}
+			case <-time.After(time.Second):
+				return false, fmt.Sprintf("round %d: Shutdown returned nil but a Serve call is still running", round)
+			}
+		}
+		if atomic.LoadInt32(&a.nclose) == 0 || atomic.LoadInt32(&b.nclose) == 0 {
+			return false, fmt.Sprintf("round %d: listeners closed %d and %d times, want every registered listener closed", round, atomic.LoadInt32(&a.nclose), atomic.LoadInt32(&b.nclose))
+		}
+		// a second Shutdown returns at once
+		ctx, cancel := context.WithTimeout(context.Background(), time.Second)
+		err := srv.Shutdown(ctx)
+		cancel()
+		if err != nil {
+			return false, fmt.Sprintf("round %d: second Shutdown = %v, want nil", round, err)
+		}
+	}
+	return true, ""
+}
+
+func init() { scenarios["c07-close-error"] = scenarioCloseError }
